@@ -161,7 +161,7 @@ func (s *swS3) UploadIndex(ctx context.Context, key string, body []byte) error {
 }
 func (s *swS3) DeleteSegment(ctx context.Context, key string) error { return nil }
 func (s *swS3) DeleteIndex(ctx context.Context, key string) error   { return nil }
-func (s *swS3) EnsureBucket(ctx context.Context) error               { return nil }
+func (s *swS3) EnsureBucket(ctx context.Context) error              { return nil }
 func (s *swS3) DownloadSegment(ctx context.Context, key string, rng *ByteRange) ([]byte, error) {
 	if s.e.fault() {
 		return nil, errors.New("injected: transient download error")
@@ -270,26 +270,28 @@ type swAccepted struct {
 type swUp struct{ sg, ix int } // 0 pending 1 ok 2 fail
 
 type swExec struct {
-	cs       swCase
-	prop     string
-	w        *swWorld
-	e        *swEpoch
-	live     bool
-	inc      int
-	up       map[int]*swUp
-	origin   map[int]int // 0 FromAppend 1 FromFlush for the thread's current PUp/PCb
-	cbEmpty  map[int]bool
-	accepted []*swAccepted
-	cur      [swNT]*swAccepted
-	expNext  int64
-	maxPub   int64
-	maxAcked int64
-	fail     string
-	failKey  string
-	steps    []string // Coq: (events, obs)
-	tags     map[string]bool
-	nEvents  int
-	lastCB   struct {
+	cs             swCase
+	prop           string
+	w              *swWorld
+	e              *swEpoch
+	live           bool
+	inc            int
+	up             map[int]*swUp
+	origin         map[int]int // 0 FromAppend 1 FromFlush for the thread's current PUp/PCb
+	cbEmpty        map[int]bool
+	overtaken      map[int]bool
+	cbWasOvertaken bool
+	accepted       []*swAccepted
+	cur            [swNT]*swAccepted
+	expNext        int64
+	maxPub         int64
+	maxAcked       int64
+	fail           string
+	failKey        string
+	steps          []string // Coq: (events, obs)
+	tags           map[string]bool
+	nEvents        int
+	lastCB         struct {
 		tid int
 		v   int64
 	}
@@ -595,9 +597,19 @@ func (x *swExec) do(a swAct) ([]string, bool) {
 				x.cbEmpty[a.T] = false
 			} else {
 				evs = append(evs, fmt.Sprintf("EFailReset %d", a.T))
+				// batches that were in flight and are now neither buffered nor in flight
+				// were dropped by the failure branch (the C01 defect)
+				flNow, bufNow := x.pendingBases()
+				still := map[int64]bool{}
+				for _, b := range flNow {
+					still[b] = true
+				}
+				for _, b := range bufNow {
+					still[b] = true
+				}
 				for _, acc := range x.accepted {
 					for _, b := range flBefore {
-						if acc.inc == x.inc && acc.base == b {
+						if acc.inc == x.inc && acc.base == b && !still[b] {
 							acc.hit = true
 						}
 					}
@@ -622,8 +634,13 @@ func (x *swExec) do(a swAct) ([]string, bool) {
 		for t := 0; t < swNT; t++ {
 			if t != a.T && x.stat(t).kind == 3 {
 				x.tags["callbacks-overlap"] = true
+				if a.Ok && st.v > x.stat(t).v {
+					x.overtaken[t] = true // a later flush's callback lands before t's
+				}
 			}
 		}
+		x.cbWasOvertaken = x.overtaken[a.T]
+		delete(x.overtaken, a.T)
 		x.release("cb", a.T, a.Ok)
 		synctest.Wait()
 		if !a.Ok {
@@ -652,6 +669,8 @@ func (x *swExec) do(a swAct) ([]string, bool) {
 		x.live = false
 		x.up = map[int]*swUp{}
 		x.cur = [swNT]*swAccepted{}
+		x.overtaken = map[int]bool{}
+		x.cbEmpty = map[int]bool{}
 		evs = append(evs, "ECrash")
 		x.tags["crash"] = true
 	case "restart", "rfault":
@@ -1046,7 +1065,7 @@ func (x *swExec) oracleStep(a swAct, prevStore int64) {
 	if x.want("C05") {
 		if store < prevStore {
 			key := "hw-regressed"
-			if a.K == "cb" && x.tags["callbacks-overlap"] {
+			if a.K == "cb" && x.cbWasOvertaken {
 				key = "hw-callback-reorder"
 			}
 			x.setFail(key, fmt.Sprintf("published next_offset went from %d to %d (action %s t=%d)", prevStore, store, a.K, a.T))
@@ -1074,7 +1093,7 @@ type swResult struct {
 func swRun(t *testing.T, cs swCase, prop string) swResult {
 	var res swResult
 	synctest.Test(t, func(t *testing.T) {
-		x := &swExec{cs: cs, prop: prop, w: &swWorld{objs: map[string][]byte{}}, up: map[int]*swUp{}, origin: map[int]int{}, cbEmpty: map[int]bool{}, tags: map[string]bool{}}
+		x := &swExec{cs: cs, prop: prop, w: &swWorld{objs: map[string][]byte{}}, up: map[int]*swUp{}, origin: map[int]int{}, cbEmpty: map[int]bool{}, overtaken: map[int]bool{}, tags: map[string]bool{}}
 		x.e = x.newEpoch()
 		if ok, _ := x.openLog(x.e, true); !ok {
 			t.Fatalf("initial open failed")
